@@ -641,6 +641,10 @@ impl Server for GitSyncServer {
         parent_version_id: VersionId,
         history_segment: HistorySegment,
     ) -> Result<(AddVersionResult, SnapshotUrgency)> {
+        // The meta file, not the copy cached in this handle, says what the latest version is:
+        // another handle on the same directory may have added a version since it was read.
+        self.read_meta()?;
+
         // Accept any parent when the repo is empty (latest == NIL).
         // Otherwise check if parent matches latest. If it doesn't, reset_to_remote and recheck.
         if self.meta.latest_version != Uuid::nil() && parent_version_id != self.meta.latest_version
